@@ -44,7 +44,7 @@ func runC11(c *Case) {
 	names := []string{}
 	for k := 0; k < nRealms; k++ {
 		rs := base
-		rs.Name = fmt.Sprintf("realm%d", k)
+		rs.Name = []string{"realm.x", "Realm.x", "REALM.X"}[k]
 		names = append(names, rs.Name)
 		if useTemplate && k == nRealms-1 {
 			continue // created from the template by the first HELLO
